@@ -143,8 +143,10 @@ def hash_mutable(obj) -> int:
             # try hashing the data buffer
             return hash(sha1(obj, usedforsecurity=False))
         except (ValueError, TypeError):
-            # otherwise, hash the internal dict
-            return hash_mutable(obj.__dict__)
+            # otherwise, hash the internal dict together with the class of the object,
+            # since objects of different classes can have identical attributes
+            cls = obj.__class__
+            return hash((cls.__module__, cls.__qualname__, hash_mutable(obj.__dict__)))
 
 
 def hash_readable(obj) -> str:
